@@ -42,7 +42,7 @@ def run_one(exe, shim, scen, keep, env_extra, idx):
         trace = os.path.join(vlib.subdir("c16tr"), "t%d.ndjson" % idx)
         env = {"LD_PRELOAD": shim, "VERIF_IO_MARK": mark, "VERIF_TRACE": trace}
         env.update(env_extra)
-        args = [exe, "-n", "2"] + (["-d"] if scen["dec"] else ["-1"]) + (["-k"] if keep else []) + [iname]
+        args = [exe, "-n", "2"] + (["-d"] if scen["dec"] else ["-1"]) + (["-k"] if keep else []) + scen.get("extra", []) + [iname]
         r = vlib.run(args, env=env, cwd=d, timeout=30)
         if r.timed_out:
             res = "hang"
@@ -95,10 +95,12 @@ def run(rep, tier, replay):
     scens = [dict(name="compress", dec=False, input=plain, plain=plain, damaged=False),
              dict(name="decompress", dec=True, input=comp, plain=plain, damaged=False),
              # a data error found by a worker: bailout() -> cleanup() removes the partial output
-             dict(name="decompress-damaged", dec=True, input=bytes(bad), plain=plain, damaged=True)]
+             dict(name="decompress-damaged", dec=True, input=bytes(bad), plain=plain, damaged=True),
+             # the same with -v: informational lines on stderr must not change what happens on the error path
+             dict(name="decompress-damaged-v", dec=True, input=bytes(bad), plain=plain, damaged=True, extra=["-v"], keeps=(False,))]
     jobs = []
     for scen in scens:
-        for keep in (False, True):
+        for keep in scen.get("keeps", (False, True)):
             # dry run: which calls does this run make, in which order?
             log = os.path.join(vlib.subdir("c16"), "log_%s_%d" % (scen["name"], keep))
             if os.path.exists(log):
@@ -106,7 +108,12 @@ def run(rep, tier, replay):
             res = run_one(exe, shim, scen, keep, {"VERIF_IO_LOG": log}, rng.randrange(10 ** 9))
             want = ("exit1", "present", "absent") if scen["damaged"] else ("exit0", "present" if keep else "gone", "complete")
             if tuple(res[:3]) != want:
-                raise vlib.Infra("dry run of %s gave %s" % (scen["name"], res[:3]))
+                # without any injected fault the run must already end in the state the scenario stands for
+                rep.violation("%s%s without any fault: process result %s, input %s, output %s (expected %s / %s / %s)" %
+                              ((scen["name"], " -k" if keep else "") + tuple(res[:3]) + want),
+                              dict(kind="fault", cls="crash-consistency", scenario=scen["name"], keep=keep, injection="none",
+                                   observed=dict(result=res[0], inp=res[1], out=res[2])))
+                continue
             calls = [l.split()[0] for l in open(log)]
             cnt = {}
             seq = []
@@ -186,7 +193,7 @@ def run(rep, tier, replay):
                 return "stray files %s" % extra
             elif want in ("exit1", "exit4") and not err:
                 return "no diagnostic"
-            elif want.startswith("signal") and f == "failsig" and err:
+            elif want.startswith("signal") and f == "failsig" and err and "-v" not in scen.get("extra", []):
                 return "diagnostic %r although the error is EPIPE / EFBIG" % err[:80]
             return None
         whys = [judge(e) for e in alts]
